@@ -83,6 +83,13 @@ func Solve(query string, getValues []string, timeout time.Duration, needAll bool
 		go func() {
 			start := time.Now()
 			args := append([]string{}, s.args[1:]...)
+			// the solver also limits itself, so that a solver process never outlives a check that is killed
+			hard := int(timeout.Seconds()) + 10
+			if strings.HasPrefix(s.args[0], "z3") {
+				args = append(args, fmt.Sprintf("-T:%d", hard))
+			} else {
+				args = append(args, fmt.Sprintf("--tlimit=%d", hard*1000))
+			}
 			args = append(args, path)
 			cmd := exec.CommandContext(ctx, s.args[0], args...)
 			var out bytes.Buffer
